@@ -354,6 +354,8 @@ type script struct {
 	Respond any `json:"respond"`
 	// HandlerError: the handler returns this error text instead
 	HandlerError string `json:"handler_error"`
+	// RespondError: the handler returns this value (a generated type implementing error) as its error
+	RespondError any `json:"respond_error"`
 	// Security: scheme → "accept" | "skip" | "reject"
 	Security map[string]string `json:"security"`
 	// MiddlewareRespond: the middleware answers itself, without calling next
@@ -419,6 +421,18 @@ func getServer(pkg, prefix string) (*server, error) {
 			if s.cur.HandlerError != "" {
 				return nil, errors.New(s.cur.HandlerError)
 			}
+			if s.cur.RespondError != nil {
+				v, err := Build(api, reflect.TypeOf((*any)(nil)).Elem(), s.cur.RespondError)
+				if err != nil {
+					s.ob.BuildErr = err.Error()
+					return nil, errors.New("build: " + err.Error())
+				}
+				if e, ok := v.Interface().(error); ok {
+					return nil, e
+				}
+				s.ob.BuildErr = "respond_error value is not an error"
+				return nil, errors.New("not an error")
+			}
 			if s.cur.Respond == nil {
 				return nil, errNotImplemented
 			}
@@ -461,7 +475,18 @@ func getServer(pkg, prefix string) (*server, error) {
 			}
 			return next(req)
 		}
-		h, err := api.NewServer(cb, nil, sec, mw, prefix)
+		// convenient errors: NewError maps a plain handler error to the declared error type with status 500
+		var ecb NewErrorCB
+		if _, ok := api.Types["ErrorStatusCode"]; ok {
+			ecb = func(ctx context.Context, err error) any {
+				v, berr := Build(api, reflect.TypeOf((*any)(nil)).Elem(), map[string]any{"$type": "*ErrorStatusCode", "$value": map[string]any{"StatusCode": json.Number("500")}})
+				if berr != nil {
+					return nil
+				}
+				return v.Interface()
+			}
+		}
+		h, err := api.NewServer(cb, ecb, sec, mw, prefix)
 		if err != nil {
 			return nil, err
 		}
